@@ -70,6 +70,7 @@ func histories(t *testing.T, shard int) {
 		var files []*fsim.File
 		nf := 2 + rng.Intn(3)
 		repeated := false
+		wide := false
 		for len(files) < nf {
 			nb := 1 + rng.Intn(4)
 			if rng.Intn(4) == 0 {
@@ -78,6 +79,17 @@ func histories(t *testing.T, shard int) {
 			blocks := make([]int, nb)
 			for k := range blocks {
 				blocks[k] = rng.Intn(7)
+			}
+			if !wide && rng.Intn(2) == 0 {
+				// one file in every second history has exactly 8 or 16 distinct data chunks
+				// (availability vector without a partial last byte)
+				wide = true
+				nb = 8 * (1 + rng.Intn(2))
+				blocks = make([]int, nb)
+				for k, v := range rng.Perm(20)[:nb] {
+					blocks[k] = v
+				}
+				run.Stat("files_with_whole_byte_vectors", 1)
 			}
 			if nb >= 3 && rng.Intn(3) == 0 {
 				blocks[nb-1] = blocks[0]
@@ -209,6 +221,21 @@ func histories(t *testing.T, shard int) {
 					}
 					if all {
 						run.Stat("fully_downloaded_claims_checked", 1)
+					}
+				}
+				// "reported fully downloaded" as the node itself decides it: with no discovery
+				// record and no source known for the root, ChunkInfo.Init answers true only
+				// through its own full-download test
+				if len(vecs) > 0 && len(w.N.CI.GetChunkInfoDiscoverOverlays(f.Root)) == 0 && len(w.N.Chain.GetNodesFromCid(f.Root.Bytes())) == 0 {
+					run.Stat("full_download_test_queried", 1)
+					if w.N.CI.Init(context.Background(), nil, f.Root) {
+						run.Stat("full_download_test_true", 1)
+						for pos, ch := range ord {
+							if !st.Present[ch] {
+								c.Viol("reported-fully-downloaded-with-chunk-missing/after-"+after, fmt.Sprintf("after %s: the node reports f%d (%d distinct data chunks) fully downloaded but data chunk %d (%s) is not in the local store", after, fi, len(ord), pos, ch[:10]), witness(nil))
+								break
+							}
+						}
 					}
 				}
 			}
